@@ -73,7 +73,11 @@ SUBQ_ROOTS = [
     [["source", "T"], ["arrange", [["nulls_last", src("T", "x")], src("T", "k")]], ["mutate", [["x", ["neg", src("T", "x")]]]], ["slice_head", 2, 0], ["alias"]],
     [["source", "T"], ["mutate", [["k", ["add", src("T", "k"), lit(1)]], ["x", lit(0)]]], ["arrange", [src("T", "k")]], ["slice_head", 3, 0], ["alias", "B", True]],
 ]
+# (the subquery part runs on a table that also has a real column named like the suffixed twin)
+SUBQ_WORLD = {"tables": {"T": {"cols": [["k", "int"], ["g", "int"], ["x", "int"], ["s", "str"], ["x_1", "int"]],
+                               "rows": [[1, 1, 5, "a", 100], [2, 1, None, "b", 200], [3, None, 2, "a", 300]]}}}
 SUBQ = [
+    ["mutate", [["q", ["add", ["add", src("T", "x"), Cn("x")], Cn("x_1")]]]],  # hidden original + successor + the real x_1
     ["filter", [["gt", src("T", "x"), lit(1)]]],  # (disabled by the model after a plain alias())
     ["filter", [["gt", Cn("k"), lit(0)]]],
     ["mutate", [["q", src("T", "x")]]],
@@ -166,7 +170,7 @@ def tasks(tier):
 def run_task(task, tier):
     if "subq" in task:
         root = SUBQ_ROOTS[task["subq"]]
-        return base.run_history_task(lambda ww: subq_explorer(ww, len(root)), WORLD, root, None, params={"subq": len(root)})
+        return base.run_history_task(lambda ww: subq_explorer(ww, len(root)), SUBQ_WORLD, root, None, params={"subq": len(root)})
     d = DEPTH[tier]
     return base.run_history_task(lambda ww: make_explorer(ww, d), WORLD, [["source", "T"]], task["first"], params={"depth": d})
 
